@@ -167,7 +167,15 @@ class PollReactor(posixbase.PosixReactorBase, posixbase._PollLikeMixin):
                 # Handles the infrequent case where one selectable's
                 # handler disconnects another.
                 continue
-            log.callWithLogger(selectable, _drdw, selectable, fd, event)
+            # A handler dispatched earlier in this batch may have stopped this
+            # selectable from reading or writing (pauseProducing, loseConnection):
+            # only deliver the events it is still registered for.
+            if fd not in self._reads:
+                event &= ~POLLIN
+            if fd not in self._writes:
+                event &= ~POLLOUT
+            if event:
+                log.callWithLogger(selectable, _drdw, selectable, fd, event)
 
     doIteration = doPoll
 
